@@ -549,7 +549,7 @@ pub fn run(a: &Args) -> i32 {
     let root = crate::e1::scratch_root();
     let _ = std::fs::create_dir_all(&root);
     let cnt = Counters::default();
-    let cases = a.tier.pick(220, 4000);
+    let cases = a.tier.pick(220, 40000);
     let programs = a.tier.pick(60, 200);
     let found: Mutex<Vec<(J, Problem)>> = Mutex::new(vec![]);
     let samples: Mutex<Vec<J>> = Mutex::new(vec![]);
